@@ -127,14 +127,6 @@ def run(cx):
     # whole scripts through the parser (partial evaluation of parse()): however the script is written - animation started before
     # the loop, host-style explicit `lcd.tick()` / `lcd.tick(now)` calls in the loop, under a condition, two displays - the
     # loop body holds exactly one LCDTick per animated display (a tick of a display that never animates is a no-op: not counted)
-    tick_sites = [n for q_, f_ in pm.funcs.items() for n in walk_local(f_, include_self=False) if isinstance(n, ast.Call) and call_name(n) == "LCDTick" and pm.enclosing_func(n) is f_]
-    def _only_from_parse(f_):
-        """the function is parse() itself or a helper whose every call site is in parse()"""
-        if f_ is pf:
-            return True
-        sites = [(q_, c_) for q_, g_ in pm.funcs.items() for c_ in walk_local(g_, include_self=False) if isinstance(c_, ast.Call) and call_name(c_) == f_.name]
-        return bool(sites) and all(pm.enclosing_func(c_) is pf for _q, c_ in sites)
-    r.check(len(tick_sites) == 1 and _only_from_parse(pm.enclosing_func(tick_sites[0])), "parser/LCDTick-built-only-by-the-injection", (pm, tick_sites[-1] if tick_sites else pf), f"LCDTick nodes are constructed at {len(tick_sites)} sites ({sorted({pm.enclosing_func(t_).name for t_ in tick_sites})}); only parse()'s per-display injection (or a helper called only from there) may build them, any other site adds a second step per pass")
     head = "from Reduino.Displays import LCD\nfrom Reduino.Utils import sleep\nlcd = LCD(i2c_addr=0x27)\nlcd2 = LCD(rs=12, en=11, d4=5, d5=4, d6=3, d7=2)\nx = 0\n"
     scripts = {
         "animate-before-loop": (head + "lcd.animate('scroll', 0, 'hello world', speed_ms=0)\nwhile True:\n    sleep(10)\n", {"lcd": 1}),
